@@ -85,3 +85,20 @@ def graphs(n, alpha, exports='one', **irkw):
 def count_events(ir):
   return sum(len(s['ops']) + len(s.get('exports', []))
              for s in ir['subgraphs'])
+
+
+def chains(n, types, variant='first', exports='none'):
+  """All linear chains of n single-operand operators (each consumes the
+  previous result): deeper than the DAG bound, no branching."""
+  import itertools
+  alpha = [a for a in alphabet(types, variant) if a[2] == 1]
+  for combo in itertools.product(alpha, repeat=n):
+    ops, h = [], 0
+    ok = True
+    for t, v, _ in combo:
+      ops.append({'t': t, 'v': v, 'in': [h]})
+      h += 1 if t != 'SPLIT' else 2
+      if t == 'SPLIT':
+        ok = False
+    if ok:
+      yield irm.single(ops, [] if exports == 'none' else [n // 2])
